@@ -4,6 +4,7 @@ package main
 
 import (
 	"fmt"
+	"strconv"
 	"go/constant"
 	"go/types"
 	"math/big"
@@ -264,11 +265,22 @@ func (ex *Exec) evIdent(name string, env *Env) Val {
 		specFail("$ranged: loop is not a range over a slice")
 	}
 	if name == "$pos" {
-		// the (single) active string iterator
-		for _, t := range env.st.iters {
-			return TV(t, types.Typ[types.Int])
+		// byte position of the string iterator of the loop whose clause this is
+		if env.loopHead != nil {
+			for _, ins := range env.loopHead.Instrs {
+				if nx, ok := ins.(*ssa.Next); ok {
+					if t, ok := env.st.iters[nx.Iter]; ok {
+						return TV(t, types.Typ[types.Int])
+					}
+				}
+			}
 		}
-		specFail("$pos: no active string iterator")
+		if len(env.st.iters) == 1 {
+			for _, t := range env.st.iters {
+				return TV(t, types.Typ[types.Int])
+			}
+		}
+		specFail("$pos: no (unique) active string iterator")
 	}
 	if strings.HasPrefix(name, "$") {
 		g := ex.db.Ghosts[name]
@@ -976,6 +988,22 @@ func (ex *Exec) evCall(x *SCall, env *Env) Val {
 			return TV(IfVal(v.T), types.NewPointer(tn))
 		}
 		return TV(v.T, types.NewPointer(tn))
+	case "xor32", "and32", "or32", "shl32", "shr32", "xor8", "and8", "or8", "shl8", "shr8", "xor64", "and64", "or64", "shl64", "shr64":
+		a, b := arg(0), arg(1)
+		ex.wantSort(a, SortInt, x.Fn)
+		ex.wantSort(b, SortInt, x.Fn)
+		op := strings.TrimRight(x.Fn, "0123456789")
+		w, _ := strconv.Atoi(x.Fn[len(op):])
+		return TV(ex.bvop(env.st, op, w, a.T, b.T), intT)
+	case "elems":
+		// elems(x): the element array backing slice x (a value snapshot)
+		v := arg(0)
+		ex.wantSort(v, SortSlice, "elems")
+		es := SortInt
+		if sl, ok := v.Ty.Underlying().(*types.Slice); ok {
+			es = sortOf(sl.Elem())
+		}
+		return TV(Select(ex.heapIn(env, memName(es), memSort(es)), SlRg(v.T)), nil)
 	case "structval":
 		// the struct value behind an immutable package-level pointer variable
 		v := arg(0)
@@ -1086,6 +1114,19 @@ func (ex *Exec) evCall(x *SCall, env *Env) Val {
 			env.st.emit(fmt.Sprintf("(declare-fun %s (%s) %s)", fn, strings.Join(sorts, " "), sf.Result))
 		}
 		return TV(app(sf.Result, fn, ts...), nil)
+	}
+	if d, ok := ex.db.Defines[x.Fn]; ok {
+		// a defined spec function: applied by name (its define-fun is in the prelude)
+		if len(d.Params) != len(x.Args) {
+			specFail("define %s: want %d args", x.Fn, len(d.Params))
+		}
+		var ts []Term
+		for i := range d.Params {
+			v := arg(i)
+			ex.wantSort(v, SortInt, x.Fn)
+			ts = append(ts, v.T)
+		}
+		return TV(app(SortInt, x.Fn, ts...), intT)
 	}
 	if p, ok := ex.db.Preds[x.Fn]; ok {
 		if len(p.Params) != len(x.Args) {
